@@ -17,7 +17,9 @@ CONSTANTS CtxAll,       \* context numbers the theorems are checked for
           CtxEmit,      \* context numbers expected octets are written for (every case)
           CtxEnum       \* ... for the generated enumeration cases
 VARIABLE c
-Next == UNCHANGED c
+\* (cases are spread over NChains arithmetic progressions so that TLC's workers share them; initial states alone
+\*  are evaluated by one thread)
+NChains == 64
 
 \* ---- integers: 0, 1, 2^k - 1, 2^k, 2^k + 1 ---------------------------------------------------------------------
 Ks == {7, 8, 15, 16, 23, 24, 31, 32, 63, 64}
@@ -83,7 +85,8 @@ FixedSeq == SetToSeq(Fixed)
 NF == Len(FixedSeq)
 CaseAt(i) == IF i <= NF THEN FixedSeq[i] ELSE Case(Gen[i - NF].ty, Gen[i - NF].v)
 
-InitGrid == c \in 1..(NF + Len(Gen))
+InitGrid == c \in 1..NChains /\ c <= NF + Len(Gen)
+NextGrid == c + NChains <= NF + Len(Gen) /\ c' = c + NChains
 InvGrid ==
     LET ty == CaseAt(c).ty
         v == CaseAt(c).v
@@ -117,7 +120,8 @@ WriteGrid == Injective /\ ndJsonSerialize(IOEnv.OUT_FILE, [i \in 1..(NF + Len(Ge
 
 \* ---- Rec --------------------------------------------------------------------------------------------------------
 Recs == ndJsonDeserialize(IOEnv.TRACE_FILE)
-InitRec == c \in 1..Len(Recs)
+InitRec == c \in 1..NChains /\ c <= Len(Recs)
+NextRec == c + NChains <= Len(Recs) /\ c' = c + NChains
 Small(x) == IF Len(x) <= 80 THEN x ELSE <<>>
 ImplRec ==
     LET r == Recs[c]
